@@ -73,6 +73,19 @@ def constTypeIn (p : GProg) (σ : St) (cm : Nat) (cn : Name) (c : GConst) : LTyp
   | .ref n => if σ.ctype.contains (cm, cn) then (resolveExpr p cm c.ty).getD (.uref n) else .uref n
   | e => (resolveExpr p cm e).getD e.raw
 
+/-- `f.Type = <linked>` for field `i`: one more field of the struct has its type linked -/
+def ownerMark (o : FOwner) (i : Nat) (σ : St) : St :=
+  match o with
+  | .strct sm sn => { σ with sdone := aset (sm, sn) (i + 1) σ.sdone }
+  | _ => σ
+
+/-- `f.Default = <linked>` for field `i` -/
+def ownerSetDflt (o : FOwner) (i : Nat) (v : CV) (σ : St) : St :=
+  match o with
+  | .strct sm sn => { σ with sdflt := aset (sm, sn, i) v σ.sdflt }
+  | .args am svc fn => { σ with fdflt := aset (am, svc, fn, i) v σ.fdflt }
+  | .excs _ _ _ => σ
+
 /-! ### the linker -/
 
 mutual
@@ -142,18 +155,13 @@ def linkFields : Nat → GProg → FOwner → Nat → Nat → List GField → St
   | f + 1, p, o, m, i, fld :: rest, σ =>
     match linkTy f p m fld.ty σ with
     | .ok (σ1, lt) =>
-      let σ2 : St := match o with
-        | .strct sm sn => { σ1 with sdone := aset (sm, sn) (i + 1) σ1.sdone }
-        | _ => σ1
+      let σ2 : St := ownerMark o i σ1
       match fld.dflt with
       | none => linkFields f p o m (i + 1) rest σ2
       | some d =>
         match linkVal f p m d lt σ2 with
         | .ok (σ3, v) =>
-          let σ4 : St := match o with
-            | .strct sm sn => { σ3 with sdflt := aset (sm, sn, i) v σ3.sdflt }
-            | .args am svc fn => { σ3 with fdflt := aset (am, svc, fn, i) v σ3.fdflt }
-            | .excs _ _ _ => σ3
+          let σ4 : St := ownerSetDflt o i v σ3
           linkFields f p o m (i + 1) rest σ4
         | .err => .err
         | .fuel => .fuel
